@@ -752,6 +752,48 @@ func c10RevTable(v ssa.Value) (x ssa.Value, k int64, n int, ok bool) {
 	return ia.Index, int64(first), cnt, true
 }
 
+// c10RevTableWrong: v is T[x] for a constant package-level table T whose
+// non-negative entries form one contiguous run (the shape of a reverse alphabet
+// table) but do not count 0, 1, 2, … along it: a positive observation that the
+// table does not invert the alphabet.
+func c10RevTableWrong(v ssa.Value) string {
+	ld, isLd := v.(*ssa.UnOp)
+	if !isLd || ld.Op != token.MUL {
+		return ""
+	}
+	ia, isIA := ld.X.(*ssa.IndexAddr)
+	if !isIA {
+		return ""
+	}
+	g, isG := ia.X.(*ssa.Global)
+	if !isG {
+		return ""
+	}
+	tbl, okT := wire.ConstTable(g)
+	if !okT {
+		return ""
+	}
+	first, last, nonneg := -1, -1, 0
+	for i, e := range tbl {
+		if e >= 0 {
+			if first < 0 {
+				first = i
+			}
+			last = i
+			nonneg++
+		}
+	}
+	if first < 0 || nonneg < 4 || last-first+1 != nonneg {
+		return "" // not the shape of a reverse alphabet table
+	}
+	for i := first; i <= last; i++ {
+		if tbl[i] != int64(i-first) {
+			return fmt.Sprintf("the reverse table %s maps byte %#x to %d, the inverse of the alphabet starting at %#x maps it to %d", g.Name(), i, tbl[i], first, i-first)
+		}
+	}
+	return ""
+}
+
 func c10IsLenOf(x *wire.X, v ssa.Value, field string) bool {
 	call, ok := wire.StripConv(v).(*ssa.Call)
 	if !ok {
@@ -1580,9 +1622,13 @@ func c10FirstLevel(c *Ctx, w *prove.World, fle, fld *wcodec) {
 	}
 	var srcStr ssa.Value
 	unbounded := ""
+	tableWrong := ""
 	decAn := &lanes.Analyzer{}
 	decAn.Leaf = func(f *lanes.Frame, v ssa.Value) (lanes.Vec, bool) {
 		rev := false
+		if wmsg := c10RevTableWrong(v); wmsg != "" {
+			tableWrong = wmsg
+		}
 		x, k, _, peeled := c10Peel(v)
 		if rx, rk, rn, isRev := c10RevTable(v); isRev && rn <= 16 {
 			// nibble = T[byte]: byte - K when it is not the "invalid" mark
@@ -1632,6 +1678,8 @@ func c10FirstLevel(c *Ctx, w *prove.World, fle, fld *wcodec) {
 		want[bit+4] = lanes.Bit{K: lanes.Src, S: 1, I: 0, B: bit} // high nibble from byte 2i
 	}
 	switch {
+	case tableWrong != "":
+		r.Fail("firstlevel", key, c.P.Rel(decStore.st.Pos()), tableWrong+": the decoded nibbles are not the encoded ones")
 	case unbounded != "":
 		r.Fail("firstlevel", key, c.P.Rel(decStore.st.Pos()), unbounded+": a byte outside 'A'..'P' is folded into the name instead of being rejected")
 	case vec != nil && vec.Equal(want):
@@ -1679,6 +1727,7 @@ func c10FirstLevel(c *Ctx, w *prove.World, fle, fld *wcodec) {
 	key = "FirstLevelDecode: trims exactly the pad byte"
 	foundTrim := false
 	decSep, decHow, decFirst := "", "", false
+	wrongTail := "" // positively observed: the tail after the separator starts at the wrong offset
 	for _, b := range fld.fn.Blocks {
 		for _, in := range b.Instrs {
 			call, ok := in.(*ssa.Call)
@@ -1754,10 +1803,22 @@ func c10FirstLevel(c *Ctx, w *prove.World, fle, fld *wcodec) {
 						if sl.High == nil && sl.Low != nil && dx.Sym(sl.Low).Equal(dx.Sym(call).AddK(int64(len(sep)))) {
 							after = true
 						}
+						if sl.High == nil && sl.Low != nil {
+							for k := int64(0); k <= 4; k++ {
+								if k != int64(len(sep)) && dx.Sym(sl.Low).Equal(dx.Sym(call).AddK(k)) {
+									wrongTail = fmt.Sprintf("%s finds %q at i and the scope is taken from s[i+%d:], not s[i+%d:]", f.Name(), sep, k, len(sep))
+								}
+							}
+						}
 					}
 				}
 				if before && after {
 					decSep, decHow, decFirst = sep, f.Name()+" + s[:i], s[i+len(sep):]", true
+					wrongTail = ""
+				} else if before && wrongTail != "" {
+					decSep = sep
+				} else {
+					wrongTail = ""
 				}
 			case "strings.LastIndex", "strings.LastIndexByte":
 				decSep, _ = strArg(1)
@@ -1805,6 +1866,8 @@ func c10FirstLevel(c *Ctx, w *prove.World, fle, fld *wcodec) {
 	}
 	key = "scope separator: encoder appends what the decoder splits on"
 	switch {
+	case wrongTail != "":
+		r.Fail("firstlevel", key, fld.pos, "scope separator: "+wrongTail+": the separator (or part of the scope) ends up on the wrong side")
 	case encSep == "" || decSep == "":
 		op := encOpaque
 		if encSep != "" {
